@@ -57,7 +57,13 @@ func (m *machine) binop(fr *frame, op token.Token, xt types.Type, x, y value, yt
 		xf, ok1 := x.(float64)
 		yf, ok2 := y.(float64)
 		if !ok1 || !ok2 {
-			panic(unsupported("floating-point arithmetic on symbolic bit patterns"))
+			// §2.9(c): float arithmetic on symbolic operands is havoc (fresh unconstrained result)
+			m.havocs++
+			switch op {
+			case token.LSS, token.LEQ, token.GTR, token.GEQ:
+				return &sym{t: m.fresh("fhavoc", 0)}
+			}
+			return &sym{t: m.fresh("fhavoc", 64)}
 		}
 		var r float64
 		switch op {
@@ -354,6 +360,11 @@ func (m *machine) intBinop(fr *frame, op token.Token, b *types.Basic, x, y value
 // eqTerm returns the Bool term "x == y" for values of static type t.
 func (m *machine) eqTerm(fr *frame, t types.Type, x, y value) *term {
 	f := m.tf
+	if b := basicOf(t); b != nil && b.Info()&types.IsFloat != 0 && (isSym(x) || isSym(y)) && m.havocs > 0 {
+		// IEEE equality on havoc'd floats is itself unconstrained (bit equality would be wrong for NaN/±0)
+		m.havocs++
+		return m.fresh("fhavoc", 0)
+	}
 	switch xv := x.(type) {
 	case bool:
 		if yv, ok := y.(bool); ok {
@@ -569,7 +580,25 @@ func (m *machine) load(fr *frame, p ptr) value {
 	if p.c == nil {
 		m.goPanic(fr, "invalid memory address or nil pointer dereference")
 	}
+	m.force(fr, p.c)
 	return copyVal(*p.c)
+}
+
+// force materialises a lazy cell in place.
+func (m *machine) force(fr *frame, c *value) {
+	lc, ok := (*c).(*lazyCell)
+	if !ok {
+		return
+	}
+	if !lc.done {
+		saved := m.lazyKey
+		m.lazyKey = lc.key
+		m.nondetLog = append(m.nondetLog, nondetRec{key: lc.key, kind: "lazy", conc: []int64{1}})
+		lc.val = m.callValue(m.cur, fr, lc.gen, []value{int64(lc.idx)}, nil)
+		m.lazyKey = saved
+		lc.done = true
+	}
+	*c = copyVal(lc.val)
 }
 
 func (m *machine) store(fr *frame, addr value, v value) {
@@ -923,7 +952,8 @@ func (m *machine) conv(fr *frame, dst, src types.Type, x value) value {
 		case bs.Info()&types.IsFloat != 0:
 			fl, ok := x.(float64)
 			if !ok {
-				panic(unsupported("float->int on symbolic"))
+				m.havocs++
+				return &sym{t: m.fresh("fhavoc", dw)}
 			}
 			if dsigned {
 				return canon(uint64(int64(fl)), dw, true)
@@ -936,7 +966,8 @@ func (m *machine) conv(fr *frame, dst, src types.Type, x value) value {
 		case bs.Info()&types.IsInteger != 0:
 			i, ok := x.(int64)
 			if !ok {
-				panic(unsupported("int->float on symbolic"))
+				m.havocs++
+				return &sym{t: m.fresh("fhavoc", 64)}
 			}
 			_, ssigned := widthOf(bs)
 			if ssigned {
